@@ -80,6 +80,17 @@ def run(ctx):
             ls = [dict(nm="k", line=l["line"], allowed=l["v"][eff(lvl)][eff(lvm)]) for l in buckets[f]]
             cases.append(dict(id=len(cases), names=K, t=FAMILIES[f], fam=f, lvl=lvl, lvm=lvm, ord=od,
                               lines=with_followups(rng, ls, ctx.pick(3, 12))))
+    # every third table receives its lines as the plain-text input does (input.Plain.Handle on a stream holding the line:
+    # "every received line increments the inbound counter exactly once" is about lines as received); some of those with
+    # names of several KiB (the plain-text listener takes lines up to 64 KiB)
+    nlong = 0
+    for c in cases:
+        if (c["id"] + ctx.seed) % 3 == 0:
+            c["via"] = "plain"
+            if (c["id"] + ctx.seed) % 9 == 0 and nlong < ctx.pick(8, 60):
+                c["long"] = rng.choice([3000, 6000, 12000, 30000])
+                c["lines"] = c["lines"][:ctx.pick(60, 150)]
+                nlong += 1
     nl = sum(len(c["lines"]) for c in cases)
     ctx.log("cases: %d tables (12 level pairs x 3 validate_order settings as written x table shapes), %d lines from %d classes" % (
         len(cases), nl, len(lines)))
@@ -180,7 +191,19 @@ def run(ctx):
     if not crashed and not ctx.violations and (ooo_points == 0 or repeats_fwd == 0 or min(inv_by_ord.values()) == 0):
         raise Machinery("vacuous coverage of the order setting: %d out-of-order points, %d repeated names forwarded, invalid lines per "
                         "validate_order setting %s" % (ooo_points, repeats_fwd, inv_by_ord))
+    viap = [e for e in events if e["ev"] == "d" and e.get("via") == "plain"]
+    verr = [e for e in events if e["ev"] == "d" and str(e.get("via", "")).startswith("plain-error")]
+    if verr and not ctx.violations:
+        # the plain handler refused a stream holding one line within its documented limit
+        e = verr[0]
+        ctx.violation("c02 plain-input-error len=%d" % e["len"], "input.Plain.Handle returned %r for a stream holding one line of %d bytes" % (e["via"], e["len"]),
+                      dict(observed=dict(e, text=e["text"][:200])))
+    nbig = sum(1 for e in viap if e["len"] > 4096)
+    if not crashed and not ctx.violations and (len(viap) < 200 or nbig < 50):
+        raise Machinery("vacuous coverage of the plain-text input path: %d lines through input.Plain, %d longer than 4096 bytes" % (len(viap), nbig))
     cov = ctx.cov
+    cov["lines_received_through_the_plain_input"] = dict(lines=len(viap), longer_than_4096_bytes=nbig,
+                                                         longest=max([e["len"] for e in viap] or [0]))
     cov["evaluations"] = nd
     cov["dispatches_accepted_by_tlc"] = nacc
     cov["distinct_nontrivial"] = len(distinct)
